@@ -27,6 +27,9 @@ CHECKS = {
  "C10": ("error-collection differential monitor: fail-fast vs collect_errors vs max_errors 1..3 on the same input, with singleton probes deciding which top-level items fail on their own",
          "Same verdict and equal value with collection on/off; for rejected inputs exactly one CollectedParseError naming exactly the individually failing items once each, never a valid one, and exactly min(max_errors, #failing) of them when capped; over generated data classes/functions with nested, union, conjunction and nested-class field types.",
          "Probes and both runs use the library itself (relation between runs). Declarations avoid no_input/mode/dependencies/duplicate spellings (C05/C06).", "§4 C10"),
+ "C11": ("policy metamorphic monitor: expected result rebuilt from per-element singleton probes (offending elements removed / put back unchanged), for every container kind, data-class fields with per-field on_error, typed addition and *args, over the 27 policy triples",
+         "exclude == strict conversion of the input minus exactly the offending elements; preserve == that with the offending elements unchanged at their positions; positional exclusion rejects; a required field is never silently excluded; nested one level.",
+         "Element verdicts/conversions come from the library under 'throw' (relation between runs); container reconstruction is the harness's (expected() in vmon/props/c11.py). One known finding (set targets built from raw input).", "§4 C11"),
  "C12": ("preference monitor at type_transform: subset/agreement relation between flag sets + independent promise predicates; hostile pool x targets exhaustive",
          "For every (source, target) pair of the hostile pool x 36 targets (quick, exhaustive over the pools) and 4e5 generated sources (thorough): a conversion that succeeds under no_explicit_cast / no_data_loss / both must succeed without flags with an equal same-type value; no_data_loss results must keep the listed promises; no_explicit_cast results must stay inside the documented primitive group.",
          "Trusted: promise_ndl()/src_groups() in vmon/props/c12.py (written from docs/en/references/options.md). Four mechanism-keyed known findings. Data classes receive runtime flags through __from__ (type_transform keeps a class's own options).", "§4 C12"),
